@@ -2,14 +2,15 @@
    several sessions, evaluated on what the real engine did. *)
 From Coq Require Import String ZArith NArith List Bool.
 Import ListNotations.
-From GMS Require Import Sys.C44SysVarsBase gen.C44Vars Sys.C44SysVars.
+From GMS Require Import Sys.C44SysVarsBase gen.C44Vars Sys.C44SysVars Sys.C44SysVarsStmt.
 Open Scope string_scope.
 
 Inductive read : Type :=
 | RdGlobal (s : nat) (x : string)     (* session s: SELECT @@global.x *)
 | RdSession (s : nat) (x : string)    (* SELECT @@session.x *)
 | RdBare (s : nat) (x : string)       (* SELECT @@x *)
-| RdUser (s : nat) (u : string).      (* SELECT @u *)
+| RdUser (s : nat) (u : string)       (* SELECT @u *)
+| RdPersist (s : nat) (x : string).   (* memory.Session.GetPersistedValue(x) of session s *)
 
 Inductive robs : Type := OVal (v : gval) | OErr.
 
@@ -17,7 +18,7 @@ Inductive case : Type :=
 | CConv (x : string) (v : gval) (o : res)          (* sysVar(x).GetType().Convert(v) called directly *)
 | CReg (sv : sysvar)                                 (* one entry of the registry as the running engine has it *)
 | CRegCount (n : N)                                  (* number of variables the running engine has *)
-| CHist (steps : list (op * bool * list (read * robs))). (* op, accepted?, reads made after it with their results *)
+| CHist (steps : list (stmt * bool * list (read * robs))). (* statement, accepted?, reads made after it with results *)
 
 Definition list_eqb {A} (eq : A -> A -> bool) : list A -> list A -> bool :=
   fix go (a b : list A) : bool :=
@@ -35,7 +36,7 @@ Definition vtype_eqb (a b : vtype) : bool :=
   | TDouble l h, TDouble l' h' => (l =? l')%Z && (h =? h')%Z
   | TEnum v, TEnum v' => list_eqb String.eqb v v'
   | TSet c v, TSet c' v' => String.eqb c c' && list_eqb String.eqb v v'
-  | TOther _, TOther _ => true
+  | TOther a, TOther b => String.eqb a b
   | _, _ => false
   end.
 
@@ -68,24 +69,26 @@ Definition rd_matches (m : rd) (o : robs) : bool :=
   | _, _ => false
   end.
 
-Definition do_read (st : state) (r : read) : rd :=
+Definition do_read (xs : xstate) (r : read) : rd :=
+  let st := base xs in
   match r with
-  | RdGlobal _ x => RVal (get_global st x)
-  | RdSession s x => read_session vars st s x
-  | RdBare s x => read_bare st s x
+  | RdGlobal _ x => RVal (shown vars x (get_global st x))
+  | RdSession s x => shown_rd vars x (read_session vars st s x)
+  | RdBare s x => shown_rd vars x (read_bare st s x)
   | RdUser s u => get_user st s u
+  | RdPersist s x => RVal (pers xs s x)
   end.
 
-Fixpoint hist_ok (st : state) (steps : list (op * bool * list (read * robs))) : bool :=
+Fixpoint hist_ok (xs : xstate) (steps : list (stmt * bool * list (read * robs))) : bool :=
   match steps with
   | [] => true
-  | (o, acc, reads) :: rest =>
-      match step vars st o with
+  | (c, acc, reads) :: rest =>
+      match exec_stmt vars xs c with
       | (_, Unmodelled) => true              (* outside the model: the rest of the history is not compared *)
-      | (st', out) =>
+      | (xs', out) =>
           Bool.eqb acc (outcome_eqb out Accepted)
-          && forallb (fun p => rd_matches (do_read st' (fst p)) (snd p)) reads
-          && hist_ok st' rest
+          && forallb (fun p => rd_matches (do_read xs' (fst p)) (snd p)) reads
+          && hist_ok xs' rest
       end
   end.
 
@@ -98,7 +101,7 @@ Definition ok (c : case) : bool :=
       end
   | CReg sv => reg_ok sv
   | CRegCount n => N.eqb n (N.of_nat (length vars))
-  | CHist steps => hist_ok (init vars) steps
+  | CHist steps => hist_ok (xinit vars) steps
   end.
 
 Definition mismatches (cs : list (N * case)) : list N :=
